@@ -56,7 +56,12 @@ func (r *bytesReader) Read(data []byte) (int, error) {
 
 // Buffer holds an in-memory implementation of ociregistry.BlobWriter.
 type Buffer struct {
-	commit           func(b *Buffer) error
+	commit func(b *Buffer) error
+	// commitMu serializes calls to Commit, so that the content and
+	// descriptor that one call has verified are the ones that it stores
+	// and returns, even when another Commit is made concurrently.
+	// It is acquired before mu.
+	commitMu         sync.Mutex
 	mu               sync.Mutex
 	buf              []byte
 	checkStartOffset int64
@@ -157,6 +162,8 @@ func (b *Buffer) ID() string {
 // Commit implements [ociregistry.BlobWriter.Commit] by checking
 // that everything looks OK and calling the commit function if so.
 func (b *Buffer) Commit(dig ociregistry.Digest) (_ ociregistry.Descriptor, err error) {
+	b.commitMu.Lock()
+	defer b.commitMu.Unlock()
 	if err := b.checkCommit(dig); err != nil {
 		return ociregistry.Descriptor{}, err
 	}
